@@ -340,6 +340,29 @@ def tstep (o : TOpts) (s : TSt) (caller : Bool) : TSt :=
 
 def trun (o : TOpts) (sched : List Bool) : TSt := sched.foldl (tstep o) {}
 
+/-! Two more facts of the mechanism, both invisible while the device stays silent and the pool is a with-block:
+    `joins` — leaving the pool JOINS the worker (`with ThreadPoolExecutor(...)`, i.e. `shutdown(wait=True)`; GENERATED
+    from the AST); with `shutdown(wait=False)` the `join` action returns at once.
+    `late` — the device does answer, only later than `timeout_ops`: the worker's blocked read returns by itself
+    (this is what happens under Settings.NO_TERMINATE_ON_TIMEOUT, where nothing closes the transport). -/
+def doAct2 (joins : Bool) (s : TSt) (a : TAct) (next : CPc) : TSt :=
+  match a with
+  | .close => { s with closed := true, pc := next }
+  | .join => if joins && s.blocked then s else { s with pc := next }
+
+def tstep2 (o : TOpts) (joins late : Bool) (s : TSt) (caller : Bool) : TSt :=
+  if caller then
+    match s.pc with
+    | .waiting => { s with pc := .first }
+    | .first => doAct2 joins s (plan o).1 .second
+    | .second => doAct2 joins s (plan o).2 .raised
+    | .raised => s
+  else if s.blocked && ((s.closed && o.closeWakes) || late) then
+    { s with blocked := false, lock := false }      -- the read returns (late answer) or raises (closed): the operation ends, lock freed
+  else s
+
+def trun2 (o : TOpts) (joins late : Bool) (sched : List Bool) : TSt := sched.foldl (tstep2 o joins late) {}
+
 end PoolTimeout
 
 end Scrapli.Lock
